@@ -1,9 +1,173 @@
-/- Driver.OpsYaml — placeholder (replaced by the real op table) -/
+/-
+  Driver.OpsYaml — operations of the JSON/YAML glue model (JdModel.Yaml), property C16.
+
+  Wire encoding of Go values (`Raw`), space-separated tokens, conventions of Driver.Wire:
+
+    raw   ms{ ("<hex> raw)* }     map[string]interface{}       (printed sorted by key token)
+        | mi{ (raw raw)* }        map[interface{}]interface{}  (printed sorted by the key's encoding)
+        | sl[ raw* ]              []interface{}
+        | #<16 hex>               float64 bits
+        | i<int> | l<int> | u<nat>   int | int64 | uint64
+        | "<hex of UTF-8>         string
+        | T | F | N               bool, nil
+        | o<hex of type name>     any other dynamic type
+        | n node                  a value that already is a JsonNode (node in the Wire encoding)
+
+    ops   newnode <raw>           → ok node | err | oknil      (NewJsonNode)
+          rawof <node>            → raw                         (raw())
+          yamlize <raw>           → raw                         (contract of yaml.Unmarshal ∘ yaml.Marshal)
+          yamlrt <node>           → ok node | err | oknil       (ReadYamlString(n.Yaml()) through the contract)
+          jsonrt <node>           → ok node | err | oknil       (ReadJsonString(n.Json()) on Go values)
+          unmarshal <T|F> <raw | err>
+                                  → ok node | err | oknil       (node_read.go `unmarshal`: T = the text is
+                                    blank; then what the decoder returned)
+          c16contract <node> <raw | err>
+                                  → ok | kf KF-C16-mergekey … | fail …   (contract oracle with the
+                                    class predicate of the known finding)
+-/
 import Driver.Wire
+import JdModel.Yaml
 
 namespace Jd.Driver
-open Jd Jd.Wire
+open Jd Jd.Wire Jd.Yaml
 
-def runYaml (_op : String) : Option (P String) := none
+/-- insertion sort of (sort key, payload) pairs by the key string (small lists) -/
+def yamlSortByKey (l : List (String × String)) : List (String × String) :=
+  let ins (x : String × String) (acc : List (String × String)) : List (String × String) :=
+    let rec go : List (String × String) → List (String × String)
+      | [] => [x]
+      | y :: r => if x.1 < y.1 then x :: y :: r else y :: go r
+    go acc
+  l.foldr ins []
+
+mutual
+partial def encRaw : Raw → String
+  | .mapS kvs =>
+    let items := yamlSortByKey (kvs.map (fun kv => ("\"" ++ hexOfString kv.1, encRaw kv.2)))
+    "ms{" ++ String.join (items.map (fun p => " " ++ p.1 ++ " " ++ p.2)) ++ " }"
+  | .mapI kvs =>
+    let items := yamlSortByKey (kvs.map (fun kv => (encRaw kv.1, encRaw kv.2)))
+    "mi{" ++ String.join (items.map (fun p => " " ++ p.1 ++ " " ++ p.2)) ++ " }"
+  | .slice xs => "sl[" ++ String.join (xs.map (fun x => " " ++ encRaw x)) ++ " ]"
+  | .f64 b => "#" ++ hex64 b
+  | .int i => "i" ++ toString i
+  | .int64 i => "l" ++ toString i
+  | .uint64 n => "u" ++ toString n
+  | .str s => "\"" ++ hexOfString s
+  | .bool true => "T"
+  | .bool false => "F"
+  | .nil => "N"
+  | .other t => "o" ++ hexOfString t
+  | .node j => "n " ++ encNode j
+end
+
+mutual
+partial def pRaw : P Raw := do
+  let t ← next
+  if t == "ms{" then pure (.mapS (← pRawKvsS))
+  else if t == "mi{" then pure (.mapI (← pRawKvsI))
+  else if t == "sl[" then pure (.slice (← pRawsUntil "]"))
+  else if t == "T" then pure (.bool true)
+  else if t == "F" then pure (.bool false)
+  else if t == "N" then pure .nil
+  else if t == "n" then pure (.node (← pNode))
+  else if t.startsWith "#" then
+    match parseHex64 (sdrop t 1) with
+    | some b => pure (.f64 b)
+    | none => failure
+  else if t.startsWith "\"" then
+    match stringOfHex (sdrop t 1) with
+    | some s => pure (.str s)
+    | none => failure
+  else if t.startsWith "i" then
+    match (sdrop t 1).toInt? with
+    | some i => pure (.int i)
+    | none => failure
+  else if t.startsWith "l" then
+    match (sdrop t 1).toInt? with
+    | some i => pure (.int64 i)
+    | none => failure
+  else if t.startsWith "u" then
+    match (sdrop t 1).toNat? with
+    | some n => pure (.uint64 n)
+    | none => failure
+  else if t.startsWith "o" then
+    match stringOfHex (sdrop t 1) with
+    | some s => pure (.other s)
+    | none => failure
+  else failure
+partial def pRawsUntil (stop : String) : P (List Raw) := do
+  if (← peek) == stop then
+    let _ ← next
+    pure []
+  else
+    let x ← pRaw
+    let r ← pRawsUntil stop
+    pure (x :: r)
+partial def pRawKvsS : P (List (String × Raw)) := do
+  let t ← next
+  if t == "}" then pure []
+  else if t.startsWith "\"" then
+    match stringOfHex (sdrop t 1) with
+    | some k =>
+      let v ← pRaw
+      let r ← pRawKvsS
+      pure ((k, v) :: r)
+    | none => failure
+  else failure
+partial def pRawKvsI : P (List (Raw × Raw)) := do
+  if (← peek) == "}" then
+    let _ ← next
+    pure []
+  else
+    let k ← pRaw
+    let v ← pRaw
+    let r ← pRawKvsI
+    pure ((k, v) :: r)
+end
+
+def encGlue : Glue Json → String
+  | .ok j => "ok " ++ encNode j
+  | .error .unsupported => "err"
+  | .error .nilElem => "oknil"
+
+def oracleC16Contract (n : Json) (impl : String) : String :=
+  let want := encRaw (yamlize (rawM n))
+  if impl == want then "ok"
+  else if hasMergeKey n then
+    "kf KF-C16-mergekey yaml.v2 wrote the object key << unquoted and re-read it as a merge key: got " ++ impl
+  else "fail yaml.Unmarshal(yaml.Marshal(raw)) differs from the contract: want " ++ want ++ " got " ++ impl
+
+def runYaml (op : String) : Option (P String) :=
+  match op with
+  | "newnode" => some do
+    let r ← pRaw
+    pure (encGlue (newJsonNodeM r))
+  | "rawof" => some do
+    let n ← pNode
+    pure (encRaw (rawM n))
+  | "yamlize" => some do
+    let r ← pRaw
+    pure (encRaw (yamlize r))
+  | "yamlrt" => some do
+    let n ← pNode
+    pure (encGlue (yamlRoundTripM n))
+  | "jsonrt" => some do
+    let n ← pNode
+    pure (encGlue (jsonRoundTripM n))
+  | "unmarshal" => some do
+    let blank ← next
+    if (← peek) == "err" then
+      let _ ← next
+      pure (encGlue (unmarshalM (blank == "T") none))
+    else
+      let r ← pRaw
+      pure (encGlue (unmarshalM (blank == "T") (some r)))
+  | "c16contract" => some do
+    let n ← pNode
+    let rest ← get
+    set ([] : List String)
+    pure (oracleC16Contract n (String.intercalate " " rest))
+  | _ => none
 
 end Jd.Driver
